@@ -7,6 +7,7 @@ import Smpl.Drv.Codec
 import Smpl.Drv.Filter
 import Smpl.Drv.Alloc
 import Smpl.Drv.Stream
+import Smpl.Drv.Transcode
 open Smpl.Drv
 
 def dispatch (line : String) : String :=
@@ -15,6 +16,7 @@ def dispatch (line : String) : String :=
   | "filter" :: rest => filterOp rest
   | "fat" :: rest => allocOp rest
   | "stream" :: rest => streamOp rest
+  | "trans" :: rest => transOp rest
   | _ => "bad-op"
 
 partial def loop (hin hout : IO.FS.Stream) : IO Unit := do
